@@ -261,6 +261,10 @@ func (o *muxObs) fetchObject(obj *mediaObj, uri string, first bool) {
 	if strings.HasSuffix(obj.uri, ".ts") {
 		wantCT = "video/MP2T"
 	}
+	if resp.status == 0 {
+		o.problem("fetch", obj.kind+"-no-handler", "%s %s is listed but no handler answered the request (a server would send an empty 200)", obj.kind, obj.uri)
+		return
+	}
 	if resp.effStatus() != 200 {
 		o.problem("fetch", obj.kind, "%s %s is listed but returned status %d", obj.kind, obj.uri, resp.effStatus())
 		return
